@@ -6,6 +6,7 @@
  * The series path (exact = false) is what is under contract; the delegation to GeodesicLineExact is a separate function.
  * Output bits of the mask: LATITUDE 1<<7, LONGITUDE 1<<8, AZIMUTH 1<<9, DISTANCE 1<<10, DISTANCE_IN 1<<11,
  * REDUCEDLENGTH 1<<12, GEODESICSCALE 1<<13, AREA 1<<14, LONG_UNROLL 1<<15 (Geodesic.hpp), each OR-ed with capability bits. */
+/*@ capture lon12:double */
 /*@ ghost */
 /* what a caller that replaces the call by this contract can say about HOW it called (GenDirect: "DISTANCE_IN is supplied automatically") */
 unsigned g_GP_calls, g_GP_outmask, g_GP_caps; _Bool g_GP_arcmode, g_GP_can; double g_GP_s12_a12;
@@ -19,6 +20,8 @@ __CPROVER_requires(!self->_exact)
 /*@ clause pre.line_invariant src=LineInit */
 /* established by LineInit: f < 1 hence _f1 = 1 - f > 0; the constructor is not under contract (see evidence) */
 __CPROVER_requires(self->_f1 > 0.0 && !isinf(self->_f1) && self->tiny_ > 0.0)
+/*@ clause frame.capture src=ghost only=enforce */
+__CPROVER_assigns(cap_lon12)
 /*@ clause frame src=property props=C12,C14 */
 __CPROVER_assigns(GP_ON(LATITUDE): *lat2; GP_ON(LONGITUDE): *lon2; GP_ON(AZIMUTH): *azi2; GP_ON(DISTANCE): *s12;
                   GP_ON(REDUCEDLENGTH): *m12; GP_ON(GEODESICSCALE): *M12; GP_ON(GEODESICSCALE): *M21; GP_ON(AREA): *S12)
@@ -39,3 +42,7 @@ __CPROVER_ensures(!GP_ON(AZIMUTH) || isnan(*azi2) || (-180.0 <= *azi2 && *azi2 <
 __CPROVER_ensures(!GP_ON(LATITUDE) || isnan(*lat2) || (-90.0 <= *lat2 && *lat2 <= 90.0))
 /*@ clause post.longitude_range src=property props=C01 */
 __CPROVER_ensures(!GP_ON(LONGITUDE) || (outmask & LONG_UNROLL) != 0U || isnan(*lon2) || (-180.0 <= *lon2 && *lon2 <= 180.0))
+/*@ clause post.longitude_unrolled src=property props=C01 only=enforce */
+/* C01 "with longitude unrolling lon2 - lon1 counts the true number and sense of circuits": the unrolled longitude is the stored lon1 itself
+   (NOT reduced to [-180, 180]) plus the longitude difference along the geodesic (the local lon12, ghost capture R21) */
+__CPROVER_ensures(!GP_ON(LONGITUDE) || (outmask & self->_caps & LONG_UNROLL) == 0U || VERIF_SAME_D(*lon2, self->_lon1 + cap_lon12))
